@@ -179,6 +179,7 @@ fn main() {
         let st = run.tier.pick(3, 1);
         sink.merge(struct_sweep(&run, &[&PLAINTEXT, &ENCRYPTED, &RAW_RECORD, &RECORD_HEADER], &wrapped(&cat::tls_records(2, false), st * 2), 0, &sfx, 8, &locality));
         sink.merge(struct_sweep(&run, &[&MSG_HANDSHAKE], &wrapped(&cat::handshake_messages(false), st), 0, &sfx, 8, &locality));
+        sink.merge(struct_sweep(&run, &[&MSG_HANDSHAKE], &cat::tls13_messages(), 0, &sfx, 8, &locality));
         sink.merge(struct_sweep(&run, &ext_targets, &wrapped(&exts, st), 0, &sfx, 8, &locality));
         sink.merge(struct_sweep(&run, &[&DTLS_HANDSHAKE], &wrapped(&cat::dtls_handshake_messages(), st), 0, &sfx, 8, &locality));
         sink.merge(struct_sweep(&run, &[&DTLS_RECORD, &DTLS_RECORD_HEADER], &wrapped(&cat::dtls_records(), st), 0, &sfx, 8, &locality));
